@@ -462,9 +462,9 @@ func twPlan(prop, kind, tier string) []fw.Unit {
 			us = append(us, fw.Unit{Check: prop, Kind: "enum", Tier: tier, Spec: fw.Spec(enumSpec{Cfg: i, Shard: s, Shards: shards})})
 		}
 	}
-	bound := 1
+	bound := 2 // (raised from 1: a lock-upgrade race in Trigger needs the clock to fire a due timer and one preemption)
 	if tier == "thorough" {
-		bound = 2
+		bound = 3
 	}
 	for i, sc := range twScenarios(prop, kind, tier) {
 		us = append(us, fw.Unit{Check: prop, Kind: "sched", Tier: tier, Spec: fw.Spec(schedSpec{Scn: i, Name: sc.Name, Items: []explore.Item{{}}, Bound: bound, Budget: 20000})})
@@ -477,7 +477,7 @@ func twDescribe(kind string) fw.Description {
 		Level: "model_checking",
 		Rule: "(a) bounded-exhaustive: all arrival sequences of length 1..L over a 10-value timestamp alphabet (window boundaries, +-1 ms, duplicates, an event earlier than the first one) x window sizes (incl. one that does not divide 24h) x TIMEUNIT ms|ss|ns x MAXOUTOFORDERNESS x eager|lazy feed (x key assignments over 2 keys for L-1), each followed by a far sentinel, executed through streamsql.New/Execute/Emit on the real engine under the deterministic schedule with the virtual clock and compared with ref." + kind + " (accepted rows must be reported in exactly their interval(s), late-on-arrival rows may be, bounds/alignment/window_id/count/sum recomputed, nothing twice, nothing before the watermark); " +
 			"(b) the window object itself (window.CreateWindow from rsql.Parse) driven by an ingest thread under the schedule explorer: all interleavings with the trigger goroutine and the watermark goroutine with <= bound deviations for fixed sequences; non-trivial = >=2 deliveries (a) / reached via >=1 deviation (b)",
-		Bounds:      map[string]any{"max_len": map[string]int{"quick": 4, "thorough": 5}, "timestamps_ms": twTimes, "sched_bound": map[string]int{"quick": 1, "thorough": 2}},
+		Bounds:      map[string]any{"max_len": map[string]int{"quick": 4, "thorough": 5}, "timestamps_ms": twTimes, "sched_bound": map[string]int{"quick": 2, "thorough": 3}},
 		Assumptions: []string{"ALLOWEDLATENESS = 0 (late updates are C02's subject)", "event timestamps far below virtual now + 24h", "window output buffer never full inside the bounds"},
 	}
 }
@@ -488,9 +488,9 @@ func (c01) ID() string                 { return "C01" }
 func (c01) Plan(tier string) []fw.Unit {
 	us := twPlan("C01", "tumbling", tier)
 	us = append(us, fw.Unit{Check: "C01", Kind: "proc-enum", Tier: tier, Spec: fw.Spec(enumSpec{})})
-	bound := 1
+	bound := 2 // (raised from 1: a lock-upgrade race in Trigger needs the clock to fire a due timer and one preemption)
 	if tier == "thorough" {
-		bound = 2
+		bound = 3
 	}
 	for i, sc := range c01ProcScenarios() {
 		us = append(us, fw.Unit{Check: "C01", Kind: "proc-sched", Tier: tier, Spec: fw.Spec(schedSpec{Scn: i, Name: sc.Name, Items: []explore.Item{{}}, Bound: bound, Budget: 20000})})
